@@ -12,6 +12,7 @@ package harness
 // and emits the slice of the world the decision can depend on as the abstract configuration.
 
 import (
+	"encoding/json"
 	"fmt"
 	"math/rand"
 	"sort"
@@ -117,6 +118,7 @@ type c04Env struct {
 	intern  map[string]int
 	bypassList []sdk.AccAddress
 	accepted, denied int64
+	sampled map[string]bool
 }
 
 func (e *c04Env) actor(role string, addr sdk.AccAddress, exists, funded, module bool) *c04Actor {
@@ -603,6 +605,17 @@ func (e *c04Env) emit(w *c04World, q *c04Query, bankSend, bankIO, bankDeleg bool
 	}
 	if nontrivial && !q.bypass {
 		e.w.Nontrivial(term)
+		// evidence samples: the first non-trivial case of each of a few shapes
+		shape := fmt.Sprintf("allowed=%v agents=%v markerSender=%v denoms=%d", ok, len(q.agents) > 0, w.byAddr[string(q.from)] != nil, len(q.amt))
+		if e.sampled == nil {
+			e.sampled = map[string]bool{}
+		}
+		if !e.sampled[shape] && len(e.sampled) < 6 {
+			e.sampled[shape] = true
+			if bz, err := json.Marshal(desc); err == nil {
+				e.w.Samples = append(e.w.Samples, bz)
+			}
+		}
 	}
 }
 
@@ -794,7 +807,7 @@ func TestC04(t *testing.T) {
 		}
 
 		// ---- (a) every single-denom configuration over the main dimensions ----
-		if wi == 0 || tier() == "thorough" {
+		if wi == 0 || (tier() == "thorough" && wi < 2) {
 			senders := []sdk.AccAddress{e.plain[0].addr, e.plain[1].addr, e.plain[2].addr, e.agents[0].addr, e.bypass[0].addr, e.bypass[1].addr,
 				e.feeColl.addr, e.mmod.addr}
 			for _, m := range []*c04MarkerCfg{pick(fundedMarkers(func(m *c04MarkerCfg) bool { return m.restricted && m.status == markertypes.StatusActive })),
@@ -903,7 +916,7 @@ func TestC04(t *testing.T) {
 			}
 			return out
 		}
-		nb := scale(1500, 30000)
+		nb := scale(1500, 15000)
 		for i := 0; i < nb; i++ {
 			q := randQuery()
 			ms := randMarkers(1 + r.Intn(3))
@@ -928,7 +941,7 @@ func TestC04(t *testing.T) {
 		}
 
 		// ---- (c) multi-send: one input, two or three outputs judged separately ----
-		nm := scale(150, 3000)
+		nm := scale(150, 1500)
 		for i := 0; i < nm; i++ {
 			q := randQuery()
 			if !e.funded(w, q.from) {
